@@ -12,39 +12,6 @@
 #endif
 unsigned char in_s[RTN + 1];
 
-/* reference scanner for the text after an opening double quote: longest match per token, decode by form.
- * returns 1 iff the text is exactly one string literal body closed by its quote at the very end; env: ghost "substituted" flag */
-static int spec_decode_dq(const unsigned char *t, unsigned n, unsigned char *out, unsigned *outn, int *substituted)
-{
-	unsigned pos = 0; *outn = 0; *substituted = 0;
-	while (pos < n) {
-		int s = LD_START, form = F_NONE; unsigned len = 0, i = pos;
-		while (i < n) {
-			s = spec_lex_step(s, t[i]);
-			if (s == LS_DEAD) break;
-			i++;
-			if (spec_lex_accept(s) != F_NONE) { form = spec_lex_accept(s); len = i - pos; }
-		}
-		if (form == F_NONE) return 0;
-		switch (form) {
-		case F_D_CLOSE: return pos + len == n;
-		case F_D_CHAR: out[(*outn)++] = t[pos]; break;
-		case F_D_ESC_OTHER: out[(*outn)++] = t[pos + 1]; break;
-		case F_D_NEWLINE: out[(*outn)++] = '\n'; break;
-		case F_D_CONTINUATION: break;
-		case F_D_LONE_BACKSLASH: out[(*outn)++] = '\\'; break;
-		case F_D_OCTAL: { unsigned v = 0; for (unsigned k = 1; k < len; k++) v = v * 8 + (unsigned)(t[pos + k] - '0'); if (v > 0xFF) return 0; out[(*outn)++] = (unsigned char)v; break; }
-		case F_D_HEX: { unsigned v = 0; for (unsigned k = 2; k < len; k++) v = v * 16 + (unsigned)spec_hexval(t[pos + k]); out[(*outn)++] = (unsigned char)v; break; }
-		case F_D_BADNUM: return 0;
-		case F_D_ENV: *substituted = 1; break;       /* replaced by an environment value: not the literal bytes */
-		default:
-			if (spec_named_escape(form) >= 0) { out[(*outn)++] = (unsigned char)spec_named_escape(form); break; }
-			return 0;
-		}
-		pos += len;
-	}
-	return 0;      /* no closing quote */
-}
 static void input(void)
 {
 	unsigned n = nondet_uint();
